@@ -3,6 +3,8 @@ CONSTANTS
   R = {"a", "b", "c"}
   MinISR = 2
   FetchMax = 2
+  WideEvery = 0
+  OffsetReset = "all"
   HWFallback = TRUE
   ElectAlive = TRUE
   AllowLag = TRUE
